@@ -1,6 +1,5 @@
-From WipCompose Require Import CacheSound CacheLock CacheCalls.
-Check search_cache_transparent.
-Check search_cache_transparent_graded.
-Check search_as_from_empty_cache.
-Print Assumptions search_cache_transparent.
-Print Assumptions search_as_from_empty_cache_graded.
+From WipCompose Require Import TTGrow.
+Check search_G.
+Check inner_G.
+Check negamax_G.
+Print Assumptions search_G.
